@@ -151,6 +151,30 @@ def run(tier, seed, replay):
             ins = [{"t": "arr", "a": [a, b]} for a in uni for b in uni] if not quick else tuples(1, 120)
             ins += [{"t": "arr", "a": [jqgen.V(a), jqgen.V(b)]} for a, b in OPPAIRS]
             cases.append({"src": ".[0] %s .[1]" % op, "inputs": ins, "name": op})
+        # doubles at and beyond the int64 boundary (every double >= 2^53 is an integer and travels with its exact value): the saturating
+        # float -> int conversion behind `%`, indices, slice bounds, has, implode and path elements (func.go floatToInt / toInt)
+        FA = jqgen.float_atoms(vh, ["9223372036854775808", "-9223372036854775808", "9223372036854774784", "-9223372036854774784", "18446744073709551616", "1e19", "-1e19", "9007199254740992", "1e300"])
+        small = [jqgen.V(x) for x in (5, -3, 1, -1, 0, 0.5, 7, 1000)]
+        modin = [{"t": "arr", "a": [a, b]} for a in FA for b in small + FA[:3]] + [{"t": "arr", "a": [b, a]} for a in FA for b in small]
+        cases.append({"src": ".[0] % .[1]", "inputs": modin, "name": "%:bigdouble"})
+        idxin = [{"t": "arr", "a": [jqgen.V(subj), a, b]} for subj in ([1, 2, 3], "abc", None) for a in FA[:5] + [jqgen.V(None), jqgen.V(1)] for b in FA[:3] + [jqgen.V(None), jqgen.V(2)]]
+        for body in ("$s[$a:$b]", "$s[$a]", "$s | has($a)", "[$a] | implode", "$s | getpath([$a])", "$s | getpath([{start: $a, end: $b}])", "$s | setpath([$a]; 9)", "$s | delpaths([[$a]])", "$s | del(.[$a:$b])",
+                     "$s | .[$a:$b] = [\"x\"]", "$s | flatten($a)", "$s | nth($a)", "$s | .[$a:$b] |= map(.)", "$s | try (.[$a] = 1) catch \"err\"", "$s | to_entries | .[$a:$b]", "[$s[$a:$b], $s[$b:$a]]"):
+            cases.append({"src": ". as [$s, $a, $b] | " + body, "inputs": idxin if not quick else r.sample(idxin, 40), "name": "bigdouble:" + body})
+        # several regular-expression builtins in ONE program: each call computes its own documented value whatever expressions and flags the
+        # program compiled before (the jq definitions add "g" themselves: `a` used globally and `ag` used plainly are different expressions)
+        J = lambda x: "null" if x is None else json.dumps(x)
+        REPAIRS = [(("ag", None), ("a", "g")), (("lo", "g"), ("log", None)), (("g", "g"), ("gg", None)), (("a", ""), ("a", "g")), (("ab", None), ("a", None)), (("b", "g"), ("bg", "")), (("", "g"), ("g", None)), (("a", "gg"), ("ag", "g"))]
+        REFNS = ["test(%s; %s)", "[match(%s; %s) | .offset]", "[scan(%s; %s)]", "[splits(%s; %s)]", "gsub(%s; \"-\"; %s)", "sub(%s; \"-\"; %s)", "[match(%s; %s) | .string]", "(split(%s; %s) | length)", "[capture(%s; %s)] | length"]
+        RE1 = {"test(%s; %s)": "test(%s)", "[match(%s; %s) | .offset]": "[match(%s) | .offset]", "[scan(%s; %s)]": "[scan(%s)]", "[splits(%s; %s)]": "[splits(%s)]", "gsub(%s; \"-\"; %s)": "gsub(%s; \"-\")", "sub(%s; \"-\"; %s)": "sub(%s; \"-\")"}
+        resubj = [{"t": "arr", "a": [jqgen.V(x)]} for x in ("xa", "xag ag", "hello log lo", "ggg", "abab", "bg b", "", "a")]
+        for (p1, p2) in REPAIRS:
+            for _ in range(3 if quick else 20):
+                calls = []
+                for (e, f) in (p1, p2, p1, p2):
+                    fn = r.choice(REFNS)
+                    calls.append(RE1[fn] % J(e) if f is None and fn in RE1 and r.randrange(2) else fn % (J(e), J(f)))
+                cases.append({"src": ".[0] | [%s]" % ", ".join("try (%s) catch \"e\"" % c for c in calls), "inputs": resubj, "name": "regex-sequence"})
         for fmt in ["@text", "@json", "@html", "@uri", "@urid", "@csv", "@tsv", "@sh", "@base64", "@base64d"]:
             extra_in = [{"t": "arr", "a": [jqgen.V(t)]} for t in (ROWS if fmt in ROW_NATIVES else TEXTS)]
             cases.append({"src": ".[0] | " + fmt, "inputs": tuples(0, per) + (extra_in if not quick else r.sample(extra_in, min(len(extra_in), 24))), "name": fmt})
